@@ -35,6 +35,9 @@ def jobs(tier, seed):
         out.append({'name': 'reclassify-decimal-edges-' + dt, 'kind': 'reclassify', 'n': 3, 'concrete_bins': [0.1, 0.2, 0.7], 'dtype': dt})
     for dt in ('float64', 'float32', 'int32'):
         out.append({'name': 'binary-' + dt, 'kind': 'binary', 'dtype': dt, 'nvals': 2 if dt != 'float64' else 3})
+    # listed values the raster dtype cannot represent: fractional values against an integer raster, doubles against a float32 raster (float32 store model)
+    out.append({'name': 'binary-int32-fractional-values', 'kind': 'binary', 'dtype': 'int32', 'nvals': 2, 'real_listed': True})
+    out.append({'name': 'binary-float32-store-model', 'kind': 'binary', 'dtype': 'float32', 'nvals': 1, 'f32': True})
     sizes = [(1, 3), (2, 2)] if tier == 'quick' else [(1, 3), (2, 2), (1, 5)]
     for shp in sizes:
         for k in ((2, 3) if tier == 'quick' else (2, 3, 4)):
@@ -50,6 +53,8 @@ def jobs(tier, seed):
     for lo, hi in ((2, 14), (14, 27), (27, 41)):
         out.append({'name': 'quantile-float-landmarks-k%d-%d' % (lo, hi - 1), 'kind': 'q-landmarks', 'ks': list(range(lo, hi))})
     out.append({'name': 'natural_breaks-float-landmarks', 'kind': 'nb-landmarks'})
+    # ties carry weight: two cells share a value (the multiplicity must enter the within-class variance)
+    out.append({'name': 'natural_breaks-2x2-k2-tied-pair', 'kind': 'natural_breaks', 'shape': [2, 2], 'k': 2, 'optimality': True, 'tie': [0, 1]})
     for shp in ([(1, 3), (2, 2)] if tier == 'quick' else [(1, 3), (2, 2), (1, 5)]):
         for k in ((2,) if tier == 'quick' else (2, 3)):
             out.append({'name': 'natural_breaks-%dx%d-k%d' % (shp[0], shp[1], k), 'kind': 'natural_breaks', 'shape': list(shp), 'k': k,
@@ -109,7 +114,10 @@ def body_reclassify(ctx, job):
 def body_binary(ctx, job):
     dt = job['dtype']
     isint = dt.startswith('int')
-    listed = [ctx.integer('val%d' % i, -4, 4) if isint else ctx.real('val%d' % i) for i in range(job['nvals'])]
+    if job.get('f32'):
+        sc.set_axioms(f32_store_round=True)
+    listed = [ctx.integer('val%d' % i, -4, 4) if (isint and not job.get('real_listed')) else ctx.real('val%d' % i, **({'lo': -4, 'hi': 4} if isint else {}))
+              for i in range(job['nvals'])]
     d = ctx.array('d', (1, 2), dt, lo=-4 if isint else None, hi=4 if isint else None, nan=not isint, inf=not isint)
     agg = raster(d, attrs={'res': 1}, name='a')
     res = ctx.call('classify:binary', agg, listed)
@@ -188,6 +196,9 @@ def body_datadriven(ctx, job):
     # at least two distinct finite values
     distinct_pairs = [And(fin[i], fin[j], dl[i] != dl[j]) for i in range(n) for j in range(i)]
     ctx.assume(Or(*distinct_pairs))
+    if job.get('tie'):
+        ta, tb = job['tie']
+        ctx.assume(And(fin[ta], fin[tb], dl[ta] == dl[tb]))
     if kind == 'equal_interval':
         res = ctx.call('classify:equal_interval', agg, k)
     elif kind == 'quantile':
@@ -272,5 +283,5 @@ def body_datadriven(ctx, job):
                 for c in range(k):
                     cls = ite(And(rank[i] >= bounds[c], rank[i] < bounds[c + 1]), c, cls)
                 alt.append(cls)
-            ctx.check('partition-minimises-within-class-ssd', Implies(And(allfin, alldistinct), ctx.le(got, ssd(alt), TOL64)),
+            ctx.check('partition-minimises-within-class-ssd', Implies(allfin, ctx.le(got, ssd(alt), TOL64)),
                       info=lambda m, cuts=cuts: {'values': [ctx.ev(m, v) for v in dl], 'classes': [ctx.ev(m, o) for o in ol], 'better_cuts': list(cuts)})
